@@ -202,6 +202,13 @@ func splitChunks(data []byte, spec string) [][]byte {
 
 // startPut launches an upload; it returns once the operation parked at its first gate or finished.
 func (r *Runner) startPut(id, obj, ver int, chunking, fault string) {
+	op, size := r.launchPut(id, obj, ver, chunking, fault)
+	e := r.wait()
+	r.afterPutStart(op, size, e)
+}
+
+// launchPut starts an upload in its own goroutine and returns without waiting for its first event.
+func (r *Runner) launchPut(id, obj, ver int, chunking, fault string) (*pendingOp, int) {
 	d := r.Digest(obj)
 	op := &pendingOp{id: id, kind: "put", obj: obj, ver: ver, resume: make(chan struct{}), copied: true,
 		corruptionsAtStart: r.corruptions, discardsAtStart: r.discards.total()}
@@ -262,8 +269,7 @@ func (r *Runner) startPut(id, obj, ver int, chunking, fault string) {
 		}
 		r.ev <- event{op: id, done: true, reply: reply}
 	}()
-	e := r.wait()
-	r.afterPutStart(op, size, e)
+	return op, size
 }
 
 // consumeMode consumes a buffer returned by the store in one of the ways clients do: "s" ToByteSlice, "r" ToReader
